@@ -201,6 +201,33 @@ HEX: /[0-9a-f]/
 row: FIELD ("," FIELD)*
 FIELD: /[a-z0-9]*/ | /"([^"\n]|"")*"/
 "##),
+    g!("param_perm", Lark, "prod stopc", r##"start    :  perm::0x0
+perm::_  :  ""                       %if is_ones([0:3])
+         |  "a" perm::set_bit(0)     %if bit_clear(0)
+         |  "b" perm::set_bit(1)     %if bit_clear(1)
+         |  "c" perm::set_bit(2)     %if bit_clear(2)
+"##),
+    g!("param_unique_list", Lark, "prod", r##"start    :  "[" item::0x0 "]"
+item::_  :  ""
+         |  WORD0 sep::set_bit(0)    %if bit_clear(0)
+         |  WORD1 sep::set_bit(1)    %if bit_clear(1)
+         |  WORD2 sep::set_bit(2)    %if bit_clear(2)
+sep::_   :  ""
+         |  ", " item::_             %if not(is_ones([0:3]))
+WORD0: "red"
+WORD1: "reddish"
+WORD2: "green"
+"##),
+    g!("nested_blocks", Lark, "prod", r##"start: block
+block: "{" (stmt ";")* "}"
+stmt: NAME "=" NUM | "if" "(" NAME ")" block | block
+NAME: /[a-z]+/
+NUM: /[0-9]+/
+%ignore /[ \n]+/
+"##),
+    g!("string_escapes", Lark, "prod str", r##"start: STR ("+" STR)*
+STR: /"([^"\\\x00-\x1F]|\\(["\\nrt]|u[0-9a-f]{4}))*"/
+"##),
     // ---------------------------------------------------------------- Regex
     g!("rx_email", Regex, "prod", r##"[a-z]+@[a-z]+\.(com|org|net)"##),
     g!("rx_alt_prefix", Regex, "prod", r##"(ab|abc|abcd)+x"##),
@@ -231,6 +258,14 @@ FIELD: /[a-z0-9]*/ | /"([^"\n]|"")*"/
     g!("js_addl_props", Json, "prod str", r##"{"type":"object","properties":{"a":{"type":"integer"}},"additionalProperties":{"type":"string","maxLength":3},"required":["a"]}"##),
     g!("js_compact", Json, "prod str ff", r##"{"x-guidance":{"whitespace_flexible":false,"item_separator":", ","key_separator":": "},"type":"object","properties":{"title":{"type":"string","maxLength":10},"tags":{"type":"array","items":{"enum":["a","ab","abc"]},"maxItems":3},"ok":{"type":"boolean"}},"required":["title","tags","ok"],"additionalProperties":false}"##),
     g!("js_allof", Json, "prod str", r##"{"allOf":[{"type":"object","properties":{"a":{"type":"string","minLength":1}},"required":["a"]},{"type":"object","properties":{"a":{"type":"string","maxLength":3},"b":{"type":"integer","minimum":5}},"required":["b"]}]}"##),
+    g!("js_oneof_discriminated", Json, "prod str", r##"{"oneOf":[{"type":"object","properties":{"kind":{"const":"a"},"x":{"type":"integer","minimum":0,"maximum":20}},"required":["kind","x"],"additionalProperties":false},{"type":"object","properties":{"kind":{"const":"b"},"y":{"type":"string","maxLength":4}},"required":["kind","y"],"additionalProperties":false}]}"##),
+    g!("js_min_max_props", Json, "prod str", r##"{"type":"object","additionalProperties":{"type":"integer","minimum":0,"maximum":9},"minProperties":1,"maxProperties":3}"##),
+    g!("js_pattern_props", Json, "prod str", r##"{"type":"object","patternProperties":{"^k[0-9]$":{"type":"boolean"}},"additionalProperties":false}"##),
+    g!("js_nested_arrays", Json, "prod", r##"{"type":"array","items":{"type":"array","items":{"type":"integer","minimum":-9,"maximum":9},"minItems":1,"maxItems":2},"minItems":1,"maxItems":3}"##),
+    g!("js_formats2", Json, "prod str", r##"{"type":"object","properties":{"e":{"type":"string","format":"email"},"ip":{"type":"string","format":"ipv4"},"dt":{"type":"string","format":"date-time"},"du":{"type":"string","format":"duration"}},"required":["e","ip","dt","du"],"additionalProperties":false}"##),
+    g!("js_enum_numbers", Json, "prod ff stopc", r##"{"type":"object","properties":{"level":{"enum":[1,10,100,1000]},"unit":{"enum":["s","ms","us","m"]}},"required":["level","unit"],"additionalProperties":false}"##),
+    g!("js_multiple_of", Json, "prod", r##"{"type":"object","properties":{"a":{"type":"integer","multipleOf":3,"minimum":-30,"maximum":30},"b":{"type":"number","multipleOf":0.5,"minimum":0,"maximum":4}},"required":["a","b"],"additionalProperties":false}"##),
+    g!("js_ws_pattern", Json, "prod str", r##"{"x-guidance":{"whitespace_pattern":"[ ]{0,2}"},"type":"object","properties":{"k":{"type":"array","items":{"type":"string","maxLength":2},"maxItems":2}},"required":["k"],"additionalProperties":false}"##),
     g!("js_optional_many", Json, "prod str", r##"{"type":"object","properties":{"a":{"type":"integer"},"b":{"type":"integer"},"c":{"type":"integer"},"d":{"type":"integer"},"e":{"type":"integer"}},"required":["c"],"additionalProperties":false}"##),
 ];
 
